@@ -14,9 +14,13 @@ against every committed public key and every SHA digest (never through pysaml2);
 signed are {"junk": crc}.  What Python's base64.b64decode makes of the received Signature text is
 supplied to the model as the table `sig_dec` (external function).
 
-Verify/server cases start from URLs produced by the REAL signer at generation time, then one
-parameter is mutated (value edits, bit flips, URL-level re-encodings, dropped / duplicated / added
-parameters, other signatures) and the key to verify with is varied.
+Verify/server cases start from URLs produced by the REAL signer at generation time (RSA keys of
+1024/2048/3072/4096 bit), then one parameter is mutated (value edits, bit flips, URL-level
+re-encodings, dropped / duplicated / added parameters, other signatures, changes of the signature
+OCTETS: prepend / append / insert / delete / duplicate / doubled / other lengths) and the key
+material of the verifier call is varied: certificate of the signer / of another RSA entity / holding
+an EC, Ed25519 or DSA key / not a certificate / empty; sigkey RSA or not, public or private object;
+verifier backend holding the signer's key, another key, or no key.
 """
 import base64
 import binascii
@@ -62,6 +66,11 @@ ASSUMPTIONS = [
     "it base64-decodes to (Python's lenient b64decode accepts several texts for the same octets)",
     "received dictionaries have string values and at most one value per key (duplicates are resolved first- or "
     "last-wins by the harness)",
+    "the key a verifier call asks to verify under is: the key of the certificate when a NON-EMPTY certificate string "
+    "is given (none if it holds no RSA key or is no certificate: then nothing may verify); without certificate "
+    "(None or the empty string, both falsy in the code) the sigkey argument, and with neither the verifier's own key "
+    "- calls that supply no certificate are the caller's business, not the property's; the library's own receiver "
+    "never passes an empty certificate (a blank X509Certificate makes MetaData.certs raise -> refused)",
     "when both SAMLRequest and SAMLResponse are present the property does not say which is covered (the code covers "
     "SAMLRequest); completeness is not demanded there",
 ]
@@ -77,7 +86,11 @@ UNKNOWN = ["foo", "", ALLOWED[0] + " ", " " + ALLOWED[2], ALLOWED[2].upper(), AL
 DIGESTS = {"sha1": hashes.SHA1, "sha224": hashes.SHA224, "sha256": hashes.SHA256, "sha384": hashes.SHA384,
            "sha512": hashes.SHA512, "md5": hashes.MD5}
 DIGEST_OF = dict(zip(ALLOWED, ["sha1", "sha224", "sha256", "sha384", "sha512"]))
-KEYS = ["sp", "sp2", "idp_sign", "idp_sign2", "idp2", "member2", "attacker"]
+KEYS = ["sp", "sp2", "idp_sign", "idp_sign2", "idp2", "member2", "attacker",
+        "c15_rsa1024", "c15_rsa3072", "c15_rsa4096"]  # RSA key pairs (2048 bit unless named otherwise)
+NONRSA = ["c15_ec256", "c15_ed25519", "c15_dsa2048"]  # certificates / keys of another kind
+MALFORMED_CERTS = {"junk-base64": "AAAA", "not-base64": "this is not a certificate !", "truncated": None,
+                   "pem-armoured": None}
 
 RELAY = ["", None, "rs", "a b", "a+b", "a%20b", "a%2Bb", "a&b=c", "&SigAlg=" + ALLOWED[0], "é", "日本語", "x" * 200, "~_.-*",
          "\n\t ", "%", "=", "&", "?#/:@", "'\"<>", "\x00\x7f", "🔑", "https://sp.example/return?a=1&b=2", "+", " ", "a=b",
@@ -97,6 +110,11 @@ def _load_keys():
         with open(S.cert_path(name), "rb") as f:
             _pub[name] = x509.load_pem_x509_certificate(f.read()).public_key()
         _by_n[_pub[name].public_numbers().n] = name
+    for name in NONRSA:
+        with open(S.key_path(name), "rb") as f:
+            _priv[name] = serialization.load_pem_private_key(f.read(), None)
+        with open(S.cert_path(name), "rb") as f:
+            _pub[name] = x509.load_pem_x509_certificate(f.read()).public_key()
 
 
 def key_name(key):
@@ -104,6 +122,15 @@ def key_name(key):
     _load_keys()
     pk = key.public_key() if hasattr(key, "public_key") else key
     return _by_n.get(pk.public_numbers().n)
+
+
+def malformed_cert(variant):
+    """a non-empty string that is not the base64 body of a certificate"""
+    if variant == "truncated":
+        return S.cert_b64("sp")[:200]
+    if variant == "pem-armoured":  # pem_format() wraps it a second time
+        return "-----BEGIN CERTIFICATE-----\n" + S.cert_b64("sp")[:64]
+    return MALFORMED_CERTS[variant]
 
 
 # ------------------------------------------------------------------ ideal-signature abstraction
@@ -207,10 +234,11 @@ _backends = {}
 
 
 def _backend(name):
+    """RSACrypto holding the named private key; None = a backend without key (entity without key_file)"""
     if name not in _backends:
         from saml2.sigver import RSACrypto, import_rsa_key_from_file
 
-        _backends[name] = RSACrypto(import_rsa_key_from_file(S.key_path(name)))
+        _backends[name] = RSACrypto(import_rsa_key_from_file(S.key_path(name)) if name else None)
     return _backends[name]
 
 
@@ -329,7 +357,8 @@ def gen_sign_case(rng, i):
                 "value": deflate_b64(msg), "relay_state": rs, "sign": sign, "sigalg": sigalg, "location": loc}
     typ = rng.choice(["SAMLRequest"] * 5 + ["SAMLResponse"] * 5 + ["SAMLart", "Bogus"])
     sign = rng.choice([True] * 8 + [False, None])
-    return {"op": "sign", "via": "pack", "key": rng.choice(["sp", "idp_sign", "sp2", "attacker"]), "typ": typ,
+    return {"op": "sign", "via": "pack", "typ": typ,
+            "key": rng.choice(["sp", "idp_sign", "sp2", "attacker", "c15_rsa1024", "c15_rsa3072", "c15_rsa4096"]),
             "message": msg, "value": deflate_b64(msg) if typ in ("SAMLRequest", "SAMLResponse") else msg,
             "relay_state": rs, "sign": sign, "sigalg": pick_alg(rng), "location": loc}
 
@@ -337,7 +366,7 @@ def gen_sign_case(rng, i):
 def signed_url(rng, i, typ=None, key=None, message=None, rs="__pick__", alg=None):
     """a URL from the REAL signer -> (inputs, raw query, decoded pairs)"""
     typ = typ or rng.choice(["SAMLRequest", "SAMLResponse"])
-    key = key or rng.choice(["sp", "idp_sign", "sp2", "idp2"])
+    key = key or rng.choice(["sp", "idp_sign", "sp2", "idp2", "c15_rsa1024", "c15_rsa3072", "c15_rsa4096"])
     message = message if message is not None else rand_message(rng, i)
     rs = rng.choice(RELAY) if rs == "__pick__" else rs
     alg = alg or rng.choice(ALLOWED)
@@ -413,6 +442,9 @@ def mutate(rng, src, q, pairs):
         "sig:other-digest", "sig:other-order", "sig:without-relaystate", "sig:spliced", "sig:junk", "sig:bad-base64",
         "sig:same-octets-other-text", "sig:noncanonical-tail", "add:extra", "message:other-signed",
         "resign:md5", "resign:unknown-alg",
+        "sigoct:prepend-zero", "sigoct:prepend-junk", "sigoct:prepend-signature", "sigoct:doubled",
+        "sigoct:append", "sigoct:insert", "sigoct:delete", "sigoct:duplicate-octet", "sigoct:strip-first",
+        "sigoct:first-octet", "sigoct:zeros", "sigoct:modulus-length-variants",
     ])
     if kind == "none":
         return d, kind
@@ -489,6 +521,45 @@ def mutate(rng, src, q, pairs):
         d["SigAlg"] = rng.choice(UNKNOWN + DISALLOWED[1:])
         sig = ref_sign(src["key"], rng.choice(["sha1", "sha256"]), ref_octets(typ, d[typ], d.get("RelayState"), d["SigAlg"]))
         d["Signature"] = base64.b64encode(sig).decode("ascii")
+    elif kind.startswith("sigoct:"):  # the signature OCTETS change (canonical base64 text of the result)
+        try:
+            sig = base64.b64decode(d["Signature"], validate=True)
+        except (binascii.Error, ValueError):
+            return None
+        n = len(sig)
+        junk = lambda k: bytes(rng.randrange(256) for _ in range(k))
+        if kind == "sigoct:prepend-zero":
+            new = b"\x00" * rng.choice([1, 1, 2, 8, n]) + sig
+        elif kind == "sigoct:prepend-junk":
+            new = junk(rng.choice([1, 2, 16, n - 1, n, n + 1])) + sig
+        elif kind == "sigoct:prepend-signature":
+            other = ref_sign(rng.choice(KEYS), rng.choice(["sha1", "sha256"]), b"SAMLRequest=other&SigAlg=x")
+            new = other + sig
+        elif kind == "sigoct:doubled":
+            new = sig * rng.choice([2, 2, 3])
+        elif kind == "sigoct:append":
+            new = sig + rng.choice([b"\x00", b"\x00" * n, junk(1), junk(n), sig[:1]])
+        elif kind == "sigoct:insert":
+            i = rng.randrange(n + 1)
+            new = sig[:i] + junk(rng.choice([1, 1, 3])) + sig[i:]
+        elif kind == "sigoct:delete":
+            i = rng.randrange(n)
+            new = sig[:i] + sig[i + 1:]
+        elif kind == "sigoct:duplicate-octet":
+            i = rng.randrange(n)
+            new = sig[:i] + sig[i:i + 1] + sig[i:]
+        elif kind == "sigoct:strip-first":
+            new = sig[1:] if rng.random() < 0.5 else sig.lstrip(b"\x00")[1:]
+        elif kind == "sigoct:first-octet":
+            new = bytes([sig[0] ^ rng.choice([1, 0x80, 0xFF])]) + sig[1:]
+        elif kind == "sigoct:zeros":
+            new = b"\x00" * rng.choice([n, n - 1, n + 1, 1])
+        else:  # lengths modulus-1 / modulus+1 / x2 around the genuine octets
+            new = rng.choice([sig[:-1], sig[1:], sig + sig[-1:], sig[:1] + sig, b"\x00" + sig[:-1], sig[1:] + b"\x00",
+                              sig + b"\x00" * n, b"\x00" * n + sig])
+        if new == sig:
+            return None
+        d["Signature"] = base64.b64encode(new).decode("ascii")
     elif kind.startswith("sig:"):
         rs = d.get("RelayState")
         good = ref_octets(typ, d[typ], rs, d["SigAlg"])
@@ -532,24 +603,52 @@ def mutate(rng, src, q, pairs):
 
 
 def verifier_choice(rng, src):
-    """-> (own, cert, sigkey, sigkey_private)"""
+    """-> the key-material arguments of one verifier call: own (backend key, None = key-less backend),
+    cert (+kind), sigkey (+kind, private or public object)"""
     signer = src["key"]
     others = [k for k in KEYS if k != signer]
-    c = rng.randrange(20)
-    own = rng.choice(["idp_sign", "sp", "idp2"])
-    if c < 11:
-        return own, signer, None, False
-    if c < 14:
-        return own, rng.choice(others), None, False
-    if c < 16:
-        return own, None, signer, rng.random() < 0.5
-    if c == 16:
-        return own, None, rng.choice(others), rng.random() < 0.5
-    if c == 17:
-        return signer, None, None, False  # own-key fallback, verifier is the signer
-    if c == 18:
-        return rng.choice(others), None, None, False  # own-key fallback, someone else
-    return own, signer, rng.choice(others), False  # cert wins over sigkey
+    v = {"own": rng.choice(["idp_sign", "sp", "idp2"]), "cert": None, "cert_kind": None, "sigkey": None,
+         "sigkey_kind": None, "sigkey_private": False}
+    c = rng.randrange(40)
+    if c < 16:  # the signer's certificate
+        v.update(cert=signer, cert_kind="rsa")
+        if c == 0:
+            v["own"] = None  # key-less verifier
+        elif c == 1:
+            v["own"] = signer
+    elif c < 20:  # another entity's RSA certificate (any size)
+        v.update(cert=rng.choice(others), cert_kind="rsa")
+        if c == 16:
+            v["own"] = signer  # the verifier is the signer itself: its own key must not be used
+    elif c < 26:  # another entity's certificate holding a key of another kind
+        v.update(cert=rng.choice(NONRSA), cert_kind="other")
+        v["own"] = rng.choice([signer, signer, signer, v["own"], None])
+        if c == 25:
+            v.update(sigkey=signer, sigkey_kind="rsa")  # a certificate is given: sigkey must not count
+    elif c < 29:  # a string that is no certificate
+        v.update(cert="malformed:" + rng.choice(sorted(MALFORMED_CERTS)), cert_kind="malformed")
+        v["own"] = rng.choice([signer, v["own"], None])
+    elif c < 31:  # empty certificate string = no certificate: sigkey / own key decide (caller's business)
+        v.update(cert="", cert_kind="empty")
+        v["own"] = rng.choice([signer, v["own"], None])
+        if c == 30:
+            v.update(sigkey=rng.choice([signer] + others[:2]), sigkey_kind="rsa")
+    elif c < 34:
+        v.update(sigkey=signer, sigkey_kind="rsa", sigkey_private=rng.random() < 0.5)
+        v["own"] = rng.choice([v["own"], None])
+    elif c == 34:
+        v.update(sigkey=rng.choice(others), sigkey_kind="rsa", sigkey_private=rng.random() < 0.5)
+    elif c == 35:  # a sigkey of another kind; the verifier holds the signer's key
+        v.update(sigkey=rng.choice(NONRSA), sigkey_kind="other", sigkey_private=rng.random() < 0.5, own=signer)
+    elif c == 36:
+        v["own"] = signer  # own-key fallback, verifier is the signer
+    elif c == 37:
+        v["own"] = rng.choice(others)  # own-key fallback, someone else
+    elif c == 38:
+        v["own"] = None  # no key material at all
+    else:
+        v.update(cert=signer, cert_kind="rsa", sigkey=rng.choice(others), sigkey_kind="rsa")  # cert wins
+    return v
 
 
 def gen_verify_case(rng, i, url=None):
@@ -558,13 +657,15 @@ def gen_verify_case(rng, i, url=None):
     if m is None:
         return None
     d, note = m
-    own, cert, sigkey, priv = verifier_choice(rng, src)
-    return {"op": "verify", "msg": [[k, v] for k, v in d.items()], "own": own, "cert": cert, "sigkey": sigkey,
-            "sigkey_private": priv, "sig_dec": sig_dec(d.get("Signature")), "note": note,
-            "signer": src["key"]}
+    c = {"op": "verify", "msg": [[k, v] for k, v in d.items()], "sig_dec": sig_dec(d.get("Signature")), "note": note,
+         "signer": src["key"]}
+    c.update(verifier_choice(rng, src))
+    return c
 
 
-MD_KEYSETS = [["sp"], ["sp2", "sp"], ["sp", "sp2"], ["sp2"], ["attacker", "idp2", "sp"], []]
+MD_KEYSETS = [["sp"], ["sp2", "sp"], ["sp", "sp2"], ["sp2"], ["attacker", "idp2", "sp"], [],
+              ["c15_ec256"], ["c15_ed25519", "sp"], ["sp", "c15_dsa2048"], ["c15_ec256", "c15_ed25519"],
+              ["c15_rsa4096", "sp"], ["c15_rsa1024"]]
 
 
 def authn_request_xml(i):
@@ -576,7 +677,8 @@ def authn_request_xml(i):
 
 def gen_server_case(rng, i, xml):
     must = rng.random() < 0.85
-    key = rng.choice(["sp"] * 6 + ["sp2", "sp2", "attacker"])
+    # "idp_sign" is the RECEIVER's own key: it must never count for the sender
+    key = rng.choice(["sp"] * 6 + ["sp2", "sp2", "attacker", "idp_sign", "idp_sign", "c15_rsa4096", "c15_rsa1024"])
     url = signed_url(rng, i, typ="SAMLRequest", key=key, message=xml)
     if url is None:
         return None
@@ -593,7 +695,8 @@ def gen_server_case(rng, i, xml):
         if not must and not same:
             continue  # without a signature requirement the outcome is C07's business
         return {"op": "server", "must": must, "origdoc": d["SAMLRequest"], "relay_state": d.get("RelayState"),
-                "sigalg": d.get("SigAlg"), "signature": d.get("Signature"), "certs": md, "md_keys": md,
+                "sigalg": d.get("SigAlg"), "signature": d.get("Signature"), "md_keys": md,
+                "certs": [{"k": n, "kind": "other" if n in NONRSA else "rsa"} for n in md],
                 "wellformed": same, "own": "idp_sign", "sig_dec": sig_dec(d.get("Signature")), "note": note,
                 "signer": key}
     return None
@@ -633,8 +736,12 @@ def gen_cases(rng, tier):
         src, q, pairs = url
         d = dict(pairs)
         yield {"op": "verify", "msg": [[k, v] for k, v in d.items()], "own": "idp_sign", "cert": src["key"],
-               "sigkey": None, "sigkey_private": False, "sig_dec": sig_dec(d.get("Signature")), "note": "none",
-               "signer": src["key"]}
+               "cert_kind": "rsa", "sigkey": None, "sigkey_kind": None, "sigkey_private": False,
+               "sig_dec": sig_dec(d.get("Signature")), "note": "none", "signer": src["key"]}
+        # ... and must not verify at the signer itself under a certificate of another kind
+        yield {"op": "verify", "msg": [[k, v] for k, v in d.items()], "own": src["key"], "cert": rng.choice(NONRSA),
+               "cert_kind": "other", "sigkey": None, "sigkey_kind": None, "sigkey_private": False,
+               "sig_dec": sig_dec(d.get("Signature")), "note": "none", "signer": src["key"]}
         for _ in range(per_url):
             c = gen_verify_case(rng, i, url)
             if c is not None:
@@ -679,7 +786,15 @@ def run_impl(case):
         from saml2.sigver import verify_redirect_signature
 
         msg = {k: v for k, v in case["msg"]}
-        cert = S.cert_b64(case["cert"]) if case["cert"] else None
+        kind = case.get("cert_kind") or ("rsa" if case["cert"] else None)
+        if kind is None:
+            cert = None
+        elif kind == "empty":
+            cert = ""
+        elif kind == "malformed":
+            cert = malformed_cert(case["cert"].split(":", 1)[1])
+        else:
+            cert = S.cert_b64(case["cert"])
         sigkey = None
         if case["sigkey"]:
             sigkey = _priv[case["sigkey"]] if case.get("sigkey_private") else _pub[case["sigkey"]]
